@@ -63,14 +63,18 @@ def c08(tier):
         car = dict(max_array=3, max_nested_array=3, max_map=1, max_text=2, max_depth=6, max_total_entries=1,
                    max_total_items=6)
     else:
-        hdr = dict(max_array=3, max_map=3, max_text=3, max_depth=5, max_total_entries=3, max_total_items=4)
+        hdr = dict(max_array=3, max_map=3, max_text=2, max_depth=5, max_total_entries=3, max_total_items=3)
+        hdr3 = dict(max_array=3, max_map=2, max_text=3, max_depth=5, max_total_entries=2, max_total_items=4)
         car = dict(max_array=4, max_nested_array=4, max_map=2, max_text=2, max_depth=6, max_total_entries=2,
                    max_total_items=8)
     # three entries with scalar values and text labels of <= 2 bytes: which labels count as repeated
     # (and in which wire order the extras are kept) when the third entry meets the first two
     three = dict(max_array=1, max_map=3, max_text=2, max_depth=2, max_total_entries=3, max_total_items=1, map_lens=[3],
                  map_key_kinds=["Integer", "Text"], map_value_kinds=["Integer", "Bytes"])
-    return [_dj("C08", "Header", hdr), _dj("C08", "Header", three, tag=":three"), _dj("C08", "CoseEncrypt0", car, tag=":carrier")]
+    jobs = [_dj("C08", "Header", hdr), _dj("C08", "Header", three, tag=":three"), _dj("C08", "CoseEncrypt0", car, tag=":carrier")]
+    if tier != "quick":
+        jobs.append(_dj("C08", "Header", hdr3, tag=":text3"))
+    return jobs
 
 
 def c10(tier):
